@@ -118,6 +118,14 @@ class Check:
 
     # -- finish -----------------------------------------------------------------------------------
     def finish(self, checker_cmd=None, rule=None):
+        # bounded stand-ins (contract evaluation, float probes, AST scans) are reported separately and never counted as
+        # discharged proof obligations
+        NOT_PROOF = ("bounded-evaluation", "ast-scan")
+        bounded_res = [r for r in self.results if r.get("backend") in NOT_PROOF]
+        proof_res = [r for r in self.results if r.get("backend") not in NOT_PROOF]
+        all_results = self.results
+        if self.level == "proof":
+            self.results = proof_res
         n = len(self.results)
         proved = [r for r in self.results if r["status"] == "proved"]
         by_backend = {}
@@ -144,7 +152,9 @@ class Check:
             "refused": self.refused[:50],
             "bounded": self.bounded,
             "obligation_results": [[r["name"], r["status"], r["backend"], r.get("time_s", 0)] for r in self.results][:3000],
+            "bounded_results": [[r["name"][:300], "held" if r["status"] == "proved" else r["status"], r["backend"]] for r in bounded_res][:300],
         }
+        self.results = all_results
         cov.update(self.extra)
         if self.level != "proof" or self.bounded:
             ev = int(self.bounded.get("evaluations", 0))
@@ -178,7 +188,7 @@ class Check:
             return 1
         if self.errors or bad_canaries:
             return 3
-        if n == 0 and not self.bounded:
+        if n == 0 and not self.bounded and not bounded_res:
             print(f"CHECKER-ERROR property={self.pid} zero obligations generated")
             return 3
         if self.undecided:
